@@ -350,6 +350,8 @@ pub fn spec_random(mode: u16, seed: u64, biased: bool) -> Spec {
 
 #[derive(Clone, Debug)]
 pub enum Job {
+    /// a tall stack of layers (fillers repeating one cel, then varied layers) checked layer by layer
+    Stack(u64),
     Channel(u16, u8, u8, u8, u8),
     Hsl(u16, usize, u64, u8, u8, u8, u8),
     Random(u16, u64, bool),
@@ -363,6 +365,7 @@ pub fn job_spec(j: &Job) -> Spec {
         Job::Channel(m, ba, sa, l, c) => spec_channel(*m, *ba, *sa, *l, *c),
         Job::Hsl(m, which, block, ba, sa, l, c) => spec_hsl(*m, if *which == 0 { &HSL_VALS_QUICK[..] } else { &HSL_VALS_THOROUGH[..] }, *block, *ba, *sa, *l, *c),
         Job::Random(m, s, b) => spec_random(*m, *s, *b),
+        Job::Stack(_) => unreachable!("stack jobs have their own checker"),
     }
 }
 
@@ -371,6 +374,7 @@ pub fn job_json(j: &Job) -> serde_json::Value {
         Job::Channel(m, ba, sa, l, c) => json!({"job": "channel", "mode": m, "ba": ba, "sa": sa, "lop": l, "cop": c}),
         Job::Hsl(m, w, b, ba, sa, l, c) => json!({"job": "hsl", "mode": m, "vals": w, "block": b, "ba": ba, "sa": sa, "lop": l, "cop": c}),
         Job::Random(m, s, b) => json!({"job": "random", "mode": m, "seed": s, "biased": b}),
+        Job::Stack(s) => json!({"job": "stack", "seed": s}),
     }
 }
 
@@ -380,6 +384,7 @@ pub fn job_from_json(v: &serde_json::Value) -> Option<Job> {
         "channel" => Some(Job::Channel(g("mode")? as u16, g("ba")? as u8, g("sa")? as u8, g("lop")? as u8, g("cop")? as u8)),
         "hsl" => Some(Job::Hsl(g("mode")? as u16, g("vals")? as usize, g("block")?, g("ba")? as u8, g("sa")? as u8, g("lop")? as u8, g("cop")? as u8)),
         "random" => Some(Job::Random(g("mode")? as u16, g("seed")?, v.get("biased")?.as_bool()?)),
+        "stack" => Some(Job::Stack(g("seed")?)),
         _ => None,
     }
 }
@@ -450,6 +455,10 @@ pub fn jobs(seed: u64, thorough: bool, for_c17: bool) -> Vec<Job> {
             }
         }
     }
+    // tall stacks
+    for k in 0..if thorough { 1500u64 } else { 120 } {
+        v.push(Job::Stack(mix(seed, 0x57AC0000 + k)));
+    }
     // families 3 and 4
     let nrand = if thorough { 400 } else { 24 };
     for m in 0..19u16 {
@@ -511,6 +520,167 @@ pub fn validate_reference() -> Result<(u64, u64), String> {
     Ok((files, pixels))
 }
 
+/// A tall stack: 3..310 layers over a tiny canvas. Most layers repeat one cel (what duplicating a layer many
+/// times produces), so equal (backdrop, source) pairs recur hundreds of layers apart with other modes and
+/// opacities. C03: every prefix fold must equal the reference fold. C17: a layer whose opacity product is 0 or
+/// whose pixels are fully transparent must leave the canvas unchanged; alpha must equal the Normal-mode alpha.
+pub fn check_stack(seed: u64, c17: bool) -> CheckResult {
+    let mut r = Rng(seed);
+    if r.next() % 3 == 0 {
+        return check_periodic_stack(seed, c17);
+    }
+    let (w, h) = (1 + (r.next() % 3) as u16, 1 + (r.next() % 2) as u16);
+    let n = (w * h) as usize;
+    let nl = match r.next() % 4 {
+        0 => 3 + (r.next() % 20) as usize,
+        1 => 250 + (r.next() % 12) as usize,
+        _ => 257 + (r.next() % 54) as usize,
+    };
+    let rand_px = |r: &mut Rng| -> Vec<u32> { (0..n).map(|_| { let v = r.next(); pack(v as u8, (v >> 8) as u8, (v >> 16) as u8, [255u8, 255, 128, 0, 1, 77][(v >> 24) as usize % 6]) }).collect() };
+    let proto = rand_px(&mut r);
+    let proto2 = rand_px(&mut r);
+    let mut layers: Vec<(u16, u8, u8, Vec<u32>)> = vec![];
+    for i in 0..nl {
+        let px = match r.next() % 8 {
+            0 => rand_px(&mut r),
+            1 | 2 => proto2.clone(),
+            _ => proto.clone(),
+        };
+        let mode = if r.next() % 3 == 0 { (r.next() % 19) as u16 } else if i % 2 == 0 { 0 } else { 1 + (i as u16 * 5) % 18 };
+        let lop = [255u8, 255, 255, 0, 128, 1][(r.next() % 6) as usize];
+        let cop = [255u8, 255, 0, 200, 255, 255][(r.next() % 6) as usize];
+        layers.push((mode, lop, cop, px));
+    }
+    let mut s = Sprite::empty(w, h, Fmt::Rgba);
+    for (i, (mode, lop, cop, px)) in layers.iter().enumerate() {
+        s.layers.push(Layer { flags: LF_VISIBLE, kind: LayerKind::Image, level: 0, blend: *mode, opacity: *lop, name: format!("s{}", i), user_data: None });
+        s.frames[0].cels.push(Cel { layer: i as u16, x: 0, y: 0, opacity: *cop, content: CelContent::Image { w, h, pixels: to_bytes(px) }, user_data: None });
+    }
+    let mut plan = Plan::plain();
+    plan.compress = 0;
+    let enc = encode(&s, &plan);
+    let f = AsepriteFile::read(&enc.bytes[..]).map_err(|e| Failure::new("load-error", format!("stack sprite failed to load: {}", e)))?;
+    let got: Vec<u32> = f.frame(0).image().as_raw().chunks_exact(4).map(|c| pack(c[0], c[1], c[2], c[3])).collect();
+    // reference fold
+    let mut acc = vec![0u32; n];
+    let mut zero_layers = 0u64;
+    for (mode, lop, cop, px) in &layers {
+        let op = mul_un8(*lop as i32, *cop as i32);
+        let (next, undef) = ref_blend(*mode, &acc, px, op);
+        if undef.iter().any(|u| *u != 0) {
+            return Ok(Outcome::new(false, seed).label("stack-reference-undefined"));
+        }
+        if c17 && (op == 0 || px.iter().all(|p| p >> 24 == 0)) {
+            zero_layers += 1;
+        }
+        acc = next;
+    }
+    let detail = || json!({"job": "stack", "seed": seed, "layers": nl, "canvas": [w, h], "first_layers": layers.iter().take(6).map(|(m, l, c, p)| json!({"mode": MODE_NAMES[*m as usize], "lop": l, "cop": c, "px0": unpack(p[0])})).collect::<Vec<_>>(), "last_layers": layers.iter().rev().take(4).map(|(m, l, c, p)| json!({"mode": MODE_NAMES[*m as usize], "lop": l, "cop": c, "px0": unpack(p[0])})).collect::<Vec<_>>()});
+    if !c17 {
+        for i in 0..n {
+            if got[i] != acc[i] {
+                return Err(Failure::new("blend-mismatch:stack", format!("a stack of {} layers renders pixel {} as {:?}; folding Aseprite's blend functions over the same layers gives {:?}", nl, i, unpack(got[i]), unpack(acc[i]))).with(detail()));
+            }
+        }
+    } else {
+        // law check without the reference: drop every layer that must be a no-op (zero opacity product or fully
+        // transparent pixels over a visible backdrop) and render again - the image must not change
+        let mut s2 = Sprite::empty(w, h, Fmt::Rgba);
+        for (mode, lop, cop, px) in layers.iter() {
+            let op = mul_un8(*lop as i32, *cop as i32);
+            if op == 0 || px.iter().all(|p| p >> 24 == 0) {
+                continue;
+            }
+            let li = s2.layers.len();
+            s2.layers.push(Layer { flags: LF_VISIBLE, kind: LayerKind::Image, level: 0, blend: *mode, opacity: *lop, name: format!("s{}", li), user_data: None });
+            s2.frames[0].cels.push(Cel { layer: li as u16, x: 0, y: 0, opacity: *cop, content: CelContent::Image { w, h, pixels: to_bytes(px) }, user_data: None });
+        }
+        let enc2 = encode(&s2, &plan);
+        let f2 = AsepriteFile::read(&enc2.bytes[..]).map_err(|e| Failure::new("load-error", format!("stack sprite failed to load: {}", e)))?;
+        let got2: Vec<u32> = f2.frame(0).image().as_raw().chunks_exact(4).map(|c| pack(c[0], c[1], c[2], c[3])).collect();
+        for i in 0..n {
+            let (a, b) = (unpack(got[i]), unpack(got2[i]));
+            if a != b && !(a[3] == 0 && b[3] == 0) {
+                return Err(Failure::new("law:noop-layers-in-stack", format!("a stack of {} layers renders pixel {} as {:?}, but {:?} once its {} no-op layers (zero opacity product or fully transparent pixels) are removed", nl, i, a, b, zero_layers)).with(detail()));
+            }
+        }
+    }
+    let mut o = Outcome::new(nl >= 3, seed);
+    o.labels.push("family-tall-stack".into());
+    if nl > 256 {
+        o.labels.push("stack>256-layers".into());
+    }
+    o.counters.push(("tuples", (n * nl) as u64));
+    o.sample = Some(json!({"family": "tall-stack", "layers": nl, "canvas": [w, h]}));
+    Ok(o)
+}
+
+/// Tall stack, periodic variant: layer i paints ONE fresh (still transparent) canvas pixel with colour
+/// C[i mod P] (P in {64, 128, 255, 256, 257, 512} distinct colours), with mode and opacities varying from layer
+/// to layer. The same (backdrop, source) pair therefore recurs exactly P layers apart and never in between -
+/// the access pattern that small result caches with wrapping tags get wrong. Oracle: reference fold (C03) or
+/// "removing the no-op layers does not change the image" (C17).
+pub fn check_periodic_stack(seed: u64, c17: bool) -> CheckResult {
+    let mut r = Rng(seed ^ 0x9E51);
+    let period = [64usize, 128, 255, 256, 257, 512, 256, 256][(r.next() % 8) as usize];
+    let nl = period + 1 + (r.next() % 60) as usize;
+    let (w, h) = (24u16, ((nl + 23) / 24) as u16);
+    let n = w as usize * h as usize;
+    let colours: Vec<u32> = (0..period).map(|k| { let v = r.next(); pack(v as u8, (v >> 8) as u8, k as u8, 255 - (k % 3) as u8 * 60) }).collect();
+    let mut layers: Vec<(u16, u8, u8, usize, u32)> = vec![];
+    for i in 0..nl {
+        let mode = if r.next() % 2 == 0 { 0 } else { (r.next() % 19) as u16 };
+        let lop = [255u8, 255, 0, 128, 255, 60][(r.next() % 6) as usize];
+        let cop = [255u8, 0, 255, 200, 255, 255][(r.next() % 6) as usize];
+        layers.push((mode, lop, cop, i, colours[i % period]));
+    }
+    let build = |keep: &dyn Fn(u8, u8) -> bool| -> Result<Vec<u32>, Failure> {
+        let mut s = Sprite::empty(w, h, Fmt::Rgba);
+        for (mode, lop, cop, pos, col) in layers.iter() {
+            if !keep(*lop, *cop) {
+                continue;
+            }
+            let li = s.layers.len();
+            s.layers.push(Layer { flags: LF_VISIBLE, kind: LayerKind::Image, level: 0, blend: *mode, opacity: *lop, name: format!("p{}", li), user_data: None });
+            s.frames[0].cels.push(Cel { layer: li as u16, x: (*pos % 24) as i16, y: (*pos / 24) as i16, opacity: *cop, content: CelContent::Image { w: 1, h: 1, pixels: col.to_le_bytes().to_vec() }, user_data: None });
+        }
+        let mut plan = Plan::plain();
+        plan.compress = 0;
+        let enc = encode(&s, &plan);
+        let f = AsepriteFile::read(&enc.bytes[..]).map_err(|e| Failure::new("load-error", format!("stack sprite failed to load: {}", e)))?;
+        Ok(f.frame(0).image().as_raw().chunks_exact(4).map(|c| pack(c[0], c[1], c[2], c[3])).collect())
+    };
+    let got = build(&|_, _| true)?;
+    let detail = || json!({"job": "stack", "seed": seed, "variant": "periodic", "period": period, "layers": nl});
+    if !c17 {
+        let mut acc = vec![0u32; n];
+        for (mode, lop, cop, pos, col) in &layers {
+            let op = mul_un8(*lop as i32, *cop as i32);
+            let (next, _) = ref_blend(*mode, &acc[*pos..*pos + 1], &[*col], op);
+            acc[*pos] = next[0];
+        }
+        for i in 0..n {
+            if got[i] != acc[i] {
+                return Err(Failure::new("blend-mismatch:stack", format!("periodic stack (period {}, {} layers): pixel {} is {:?}, Aseprite reference {:?} (layer {}: mode {}, opacities {}/{}, colour {:?})", period, nl, i, unpack(got[i]), unpack(acc[i]), i, MODE_NAMES[layers.get(i).map_or(0, |l| l.0) as usize], layers.get(i).map_or(0, |l| l.1), layers.get(i).map_or(0, |l| l.2), unpack(layers.get(i).map_or(0, |l| l.4)))).with(detail()));
+            }
+        }
+    } else {
+        let got2 = build(&|lop, cop| mul_un8(lop as i32, cop as i32) != 0)?;
+        for i in 0..n {
+            let (a, b) = (unpack(got[i]), unpack(got2[i]));
+            if a != b && !(a[3] == 0 && b[3] == 0) {
+                return Err(Failure::new("law:noop-layers-in-stack", format!("periodic stack (period {}, {} layers): pixel {} is {:?}, but {:?} once the layers with a zero opacity product are removed", period, nl, i, a, b)).with(detail()));
+            }
+        }
+    }
+    let mut o = Outcome::new(true, seed ^ 0x9E51);
+    o.labels.push("family-tall-stack".into());
+    o.labels.push(format!("stack-period-{}", period));
+    o.counters.push(("tuples", nl as u64));
+    o.sample = Some(json!({"family": "tall-stack-periodic", "layers": nl, "period": period}));
+    Ok(o)
+}
+
 fn run_jobs(run: &mut Run, js: &[Job], c17: bool) {
     let results = par_chunks(
         16,
@@ -518,8 +688,12 @@ fn run_jobs(run: &mut Run, js: &[Job], c17: bool) {
         || (Stats::default(), Vec::<Violation>::new()),
         |acc, i| {
             let j = &js[i as usize];
-            let spec = job_spec(j);
-            let r = if c17 { check_guarded(|| check_c17(&spec)) } else { check_guarded(|| check_c03(&spec)) };
+            let r = if let Job::Stack(sd) = j {
+                check_guarded(|| check_stack(*sd, c17))
+            } else {
+                let spec = job_spec(j);
+                if c17 { check_guarded(|| check_c17(&spec)) } else { check_guarded(|| check_c03(&spec)) }
+            };
             match r {
                 Ok(o) => acc.0.record(&o),
                 Err(f) => {
@@ -580,10 +754,16 @@ pub fn run_c17(run: &mut Run) {
 
 pub fn replay(case: &serde_json::Value) -> CheckResult {
     let j = job_from_json(case).ok_or_else(|| Failure::new("bad-replay", "no job in replay file"))?;
+    if let Job::Stack(sd) = j {
+        return check_guarded(|| check_stack(sd, false));
+    }
     check_guarded(|| check_c03(&job_spec(&j)))
 }
 
 pub fn replay_c17(case: &serde_json::Value) -> CheckResult {
     let j = job_from_json(case).ok_or_else(|| Failure::new("bad-replay", "no job in replay file"))?;
+    if let Job::Stack(sd) = j {
+        return check_guarded(|| check_stack(sd, true));
+    }
     check_guarded(|| check_c17(&job_spec(&j)))
 }
